@@ -22,6 +22,7 @@ import (
 	"context"
 	"errors"
 	"fmt"
+	"os"
 	"sort"
 	"strings"
 	"sync"
@@ -29,6 +30,7 @@ import (
 	"testing"
 	"time"
 
+	"github.com/hashicorp/raft"
 	"github.com/rqlite/rqlite/v10/command/proto"
 )
 
@@ -488,6 +490,12 @@ func c02OneRun(t *testing.T, rep *vfReport, seedSalt uint64, nNodes, nClients, n
 	rep.CountN("history:linearizable-reads-upgraded-to-strong", nUp)
 	rep.Case(fmt.Sprintf("run%d|%d ops|%v", seedSalt, len(ops), flog), nW > 0 && nL > 0 && nS > 0 && len(flog) > 0)
 	rep.Sample(map[string]interface{}{"nodes": nNodes, "clients": nClients, "faults": flog, "ops": len(ops), "acked_writes": nW, "unknown_writes": nU, "strong_reads": nS, "linearizable_reads": nL})
+	c02Verdict(t, rep, "history-not-linearizable", ops, keys, fmt.Sprintf("%d acked writes, %d unknown, %d strong reads, %d linearizable reads, faults %v", nW, nU, nS, nL, flog))
+}
+
+// c02Verdict searches a linearization of ops; none => the property fails on the implementation
+// (signature sig); one => it is handed to the Lean-verified checker.
+func c02Verdict(t *testing.T, rep *vfReport, sig string, ops []c02Op, keys int, what string) {
 	order, ok, steps := c02Linearize(ops, keys)
 	rep.CountN("search-steps", steps)
 	if !ok && steps > 20000000 {
@@ -495,8 +503,8 @@ func c02OneRun(t *testing.T, rep *vfReport, seedSalt uint64, nNodes, nClients, n
 		t.Fatalf("C02 harness: linearization search exceeded its step budget on a history of %d operations", len(ops))
 	}
 	if !ok {
-		rep.Fail("history-not-linearizable", fmt.Sprintf("no linearization order exists for the recorded history of %d operations (%d acked writes, %d unknown, %d strong reads, %d linearizable reads) under faults %v", len(ops), nW, nU, nS, nL, flog),
-			map[string]interface{}{"faults": flog, "history": c02Describe(ops), "model_ops": c02Lines(ops)})
+		rep.Fail(sig, fmt.Sprintf("no linearization order exists for the recorded history of %d operations (%s)", len(ops), what),
+			map[string]interface{}{"what": what, "history": c02Describe(ops), "model_ops": c02Lines(ops)})
 		return
 	}
 	// hand the order found to the Lean-verified checker
@@ -517,6 +525,151 @@ func c02OneRun(t *testing.T, rep *vfReport, seedSalt uint64, nNodes, nClients, n
 	want = append(want, fmt.Sprint(len(ops)), "true")
 	rep.vfCompare("linz", lines, want, nil)
 	rep.Count("witness-orders-checked-by-lean")
+}
+
+// c02FreshLeaderWindow drives the cluster into the one window the first read of a new leader
+// is about: a write W is acknowledged by the old leader, the followers hold W but have not
+// been told it is committed, the old leader dies, a follower is elected but CANNOT replicate
+// (its AppendEntries that carry entries are refused by the harness through the Store's own
+// NodeTransport hook, heartbeats pass, so VerifyLeader succeeds) — its term no-op, hence W,
+// is not committed at the new leader. Two linearizable reads of W's key are then issued
+// concurrently on the new leader; replication is released a little later. Both reads must
+// reflect W (they are invoked after W was acknowledged).
+func c02FreshLeaderWindow(t *testing.T, rep *vfReport) {
+	c := clu8NewCluster(t)
+	defer c.Close()
+	n0, err := c.NewNode()
+	if err != nil {
+		t.Fatalf("C02 harness: %v", err)
+	}
+	if err := c.Bootstrap(n0); err != nil {
+		t.Fatalf("C02 harness: %v", err)
+	}
+	var fol []*clu8Node
+	for i := 0; i < 2; i++ {
+		n, err := c.NewNode()
+		if err != nil {
+			t.Fatalf("C02 harness: %v", err)
+		}
+		if err := n0.S.Join(joinRequest(n.Name, n.Addr, true)); err != nil {
+			t.Fatalf("C02 harness: join: %v", err)
+		}
+		if _, err := n.S.WaitForLeader(60 * time.Second); err != nil {
+			t.Fatalf("C02 harness: no leader on %s", n.Name)
+		}
+		fol = append(fol, n)
+	}
+	if err := clu8Exec(n0.S, "CREATE TABLE kv (k INTEGER PRIMARY KEY, v INTEGER)", "INSERT INTO kv(k, v) VALUES(0, 1)"); err != nil {
+		t.Fatalf("C02 harness: %v", err)
+	}
+	for _, n := range append([]*clu8Node{n0}, fol...) {
+		if !clu8Quiesce(n, 90*time.Second) {
+			rep.Note("fresh-leader window: %s did not quiesce; scenario skipped", n.Name)
+			return
+		}
+	}
+	if !n0.S.IsLeader() {
+		rep.Note("fresh-leader window: leadership moved during setup; scenario skipped")
+		return
+	}
+	var clock atomic.Int64
+	var ops []c02Op
+	ops = append(ops, c02Op{kind: "w", key: 0, val: 1, inv: clock.Add(1), resp: clock.Add(1), node: n0.Name})
+	// the followers may replicate W but must not learn that it is committed
+	widx := n0.S.raft.LastIndex() + 1
+	// (the followers' own receive hook lowers the commit index announced by the old leader: this
+	// also covers the replication pipeline, which bypasses the send hook)
+	var blocked atomic.Bool
+	blocked.Store(true)
+	for _, f := range fol {
+		f.S.raftTn.SetAppendEntriesRxHandler(func(req *raft.AppendEntriesRequest) error {
+			if blocked.Load() && req.LeaderCommitIndex >= widx {
+				req.LeaderCommitIndex = widx - 1
+				rep.Count("fresh-leader-window:commit-notification-withheld")
+			}
+			return nil
+		})
+		// a future leader among the followers will not be able to replicate, only to heartbeat
+		// (a heartbeat carries neither entries nor a previous-entry index)
+		f.S.raftTn.SetAppendEntriesTxHandler(func(req *raft.AppendEntriesRequest) error {
+			if os.Getenv("C02_DEBUG") != "" {
+				fmt.Printf("C02DBG AE from term=%d entries=%d prev=%d commit=%d blocked=%v\n", req.Term, len(req.Entries), req.PrevLogEntry, req.LeaderCommitIndex, blocked.Load())
+			}
+			if blocked.Load() && (len(req.Entries) > 0 || req.PrevLogEntry > 0) {
+				rep.Count("fresh-leader-window:replication-withheld")
+				return errors.New("c02: replication withheld")
+			}
+			rep.Count("fresh-leader-window:heartbeats-passed")
+			return nil
+		})
+	}
+	w := c02Op{kind: "w", key: 0, val: 2, inv: clock.Add(1), node: n0.Name}
+	ok, _, werr := c02Write(n0.S, 0, 2)
+	if !ok {
+		rep.Note("fresh-leader window: the write was not acknowledged (%v); scenario skipped", werr)
+		return
+	}
+	w.resp = clock.Add(1)
+	ops = append(ops, w)
+	c.Stop(n0)
+	// wait for a new leader among the followers
+	var nl *clu8Node
+	deadline := time.Now().Add(60 * time.Second)
+	for nl == nil && time.Now().Before(deadline) {
+		for _, f := range fol {
+			if f.S.IsLeader() {
+				nl = f
+			}
+		}
+		time.Sleep(10 * time.Millisecond)
+	}
+	if nl == nil {
+		rep.Note("fresh-leader window: no new leader within 60 s; scenario skipped")
+		return
+	}
+	rep.Note("fresh-leader window: widx=%d new leader %s commit=%d last=%d term=%d", widx, nl.Name, nl.S.raft.CommitIndex(), nl.S.raft.LastIndex(), nl.S.raft.CurrentTerm())
+	inWindow := nl.S.raft.CommitIndex() < widx
+	rep.Count(fmt.Sprintf("fresh-leader-window:new-leader-commit-behind-acked-write=%v", inWindow))
+	type res struct {
+		op  c02Op
+		err error
+	}
+	ch := make(chan res, 2)
+	read := func(id int) {
+		op := c02Op{client: id, kind: "lin", key: 0, node: nl.Name}
+		op.inv = clock.Add(1)
+		v, eff, err := c02Read(nl.S, 0, proto.ConsistencyLevel_LINEARIZABLE)
+		if err == nil {
+			op.val, op.level = v, eff.String()
+			op.resp = clock.Add(1)
+		}
+		ch <- res{op, err}
+	}
+	go read(1)
+	time.Sleep(300 * time.Millisecond)
+	go read(2)
+	time.Sleep(1500 * time.Millisecond)
+	blocked.Store(false) // replication may proceed: the no-op, W and the upgraded strong read commit
+	got := 0
+	for i := 0; i < 2; i++ {
+		select {
+		case r := <-ch:
+			if r.err == nil {
+				ops = append(ops, r.op)
+				got++
+				rep.Count("fresh-leader-window:read-ok:" + r.op.level)
+			} else {
+				rep.Count("fresh-leader-window:read-failed:" + c02ErrClass(r.err))
+			}
+		case <-time.After(60 * time.Second):
+			rep.Note("fresh-leader window: a read did not return within 60 s")
+		}
+	}
+	rep.Case(fmt.Sprintf("fresh-leader-window|in-window=%v|reads=%d", inWindow, got), inWindow && got > 0)
+	rep.Sample(map[string]interface{}{"scenario": "fresh-leader-window", "new_leader": nl.Name, "commit_behind_acked_write": inWindow, "history": c02Describe(ops)})
+	sort.SliceStable(ops, func(i, j int) bool { return ops[i].inv < ops[j].inv })
+	c02Verdict(t, rep, "first-reads-of-new-leader-miss-acked-write", ops, 1,
+		fmt.Sprintf("write k0=2 acknowledged by the old leader, old leader stopped, two concurrent linearizable reads on the new leader %s while its term no-op could not be replicated", nl.Name))
 }
 
 // c02SelfTest makes sure the search and the verified checker reject what they must: a
@@ -556,6 +709,11 @@ func TestVerifC02(t *testing.T) {
 	rep := vfNewReport("C02", "live 3-node (thorough: also 5-node) clusters behind a fault-injecting transport layer; 4-6 concurrent clients issuing keyed writes (unique values), strong reads and linearizable reads to any node with one-hop forwarding to the named leader; seeded fault schedules (leader isolated, follower isolated, leader in a minority, stepdown, follower/leader stop+restart); one case per run = one recorded history; non-trivial when it contains acked writes, strong and linearizable reads and at least one fault; the linearization order found by search is re-checked by the Lean-verified checkWitness")
 	defer rep.Write()
 	c02SelfTest(t, rep)
+	for i := 0; i < vfScale(1, 4); i++ {
+		if fin, dump := clu8Guard(10*time.Minute, func() { c02FreshLeaderWindow(t, rep) }); !fin {
+			rep.Note("C02: fresh-leader window scenario abandoned; goroutines: %s", dump)
+		}
+	}
 	runs := vfScale(2, 10)
 	for i := 0; i < runs; i++ {
 		nodes := 3
